@@ -119,6 +119,8 @@ unsafe impl<#[may_dangle] T> Drop for Rc<T> {
         // nodes as dead if they have already been deallocated and short
         // circuit.
         if self.inner().is_dead() {
+            #[cfg(cactusref_verif)]
+            crate::verif::count_path(crate::verif::PATH_DEAD_HANDLE);
             return;
         }
 
@@ -153,12 +155,16 @@ unsafe impl<#[may_dangle] T> Drop for Rc<T> {
                 return;
             }
             debug!("cactusref drop skipped, Rc is reachable");
+            #[cfg(cactusref_verif)]
+            crate::verif::count_path(crate::verif::PATH_REACHABLE);
         }
     }
 }
 
 unsafe fn drop_unreachable<T>(this: &mut Rc<T>) {
     debug!("cactusref detected unreachable Rc");
+    #[cfg(cactusref_verif)]
+    crate::verif::count_path(crate::verif::PATH_PLAIN);
     let forward = Link::forward(this.ptr);
     let backward = Link::backward(this.ptr);
     // Remove reverse links so `this` is not included in cycle detection for
@@ -218,6 +224,14 @@ unsafe fn drop_unreachable<T>(this: &mut Rc<T>) {
 }
 
 unsafe fn drop_cycle<T>(cycle: HashMap<Link<T>, usize>) {
+    #[cfg(cactusref_verif)]
+    {
+        crate::verif::count_path(crate::verif::PATH_CYCLE);
+        crate::verif::group_begin();
+        for (ptr, _) in &cycle {
+            crate::verif::group_member(ptr.as_ptr() as usize, ptr.kind());
+        }
+    }
     debug!(
         "cactusref detected orphaned cycle with {} objects",
         cycle.len()
@@ -370,6 +384,8 @@ unsafe fn drop_cycle<T>(cycle: HashMap<Link<T>, usize>) {
 // |      |----------| <--------|
 // |--------------------|
 unsafe fn drop_unreachable_with_adoptions<T>(this: &mut Rc<T>) {
+    #[cfg(cactusref_verif)]
+    crate::verif::count_path(crate::verif::PATH_WITH_ADOPTIONS);
     // Construct a forward and back link from `this` so we can
     // purge it from the adopted `links`.
     let forward = Link::forward(this.ptr);
